@@ -37,6 +37,8 @@ const (
 	nackNoRte = uint64(150)
 
 	minHopDelay = 5 * time.Millisecond
+	stormLimit  = 400  // advertisement changes of one router between two settling points
+	serveLimit  = 3000 // advertisements served by one router between two settling points
 )
 
 // routerNames: deliberately of different lengths; the order of their hashes (which the
@@ -186,11 +188,13 @@ type network struct {
 	adverts         int            // advertisements observed on the wire
 	lastAdvert      map[int][]byte // last advertisement content per router
 	advChanges      map[int]int    // per router: changes of its advertisement since the last settling point
+	advServed       map[int]int    // per router: advertisements served since the last settling point
 	lastChange      time.Duration  // last time an advertisement changed or a command was issued
 	counts          map[string]int
 	snapSeen        map[[2]int]bool // (fetcher, owner): prefix data already applied once
 	resnap          int             // snapshot fetches by a peer that had data of that router before
 	harnessErr      string          // internal inconsistency of the harness (never a verdict)
+	storm           string          // a router's advertisement keeps changing: the simulation is cut short
 }
 
 func newNetwork(n int, sched Sched) *network {
@@ -202,6 +206,7 @@ func newNetwork(n int, sched Sched) *network {
 		flow:       map[string]uint64{},
 		lastAdvert: map[int][]byte{},
 		advChanges: map[int]int{},
+		advServed:  map[int]int{},
 		counts:     map[string]int{},
 		snapSeen:   map[[2]int]bool{},
 	}
@@ -667,6 +672,10 @@ func (nw *network) observeData(n *node, p *pending, raw []byte) {
 		return
 	}
 	nw.adverts++
+	nw.advServed[n.id]++
+	if nw.advServed[n.id] > serveLimit && nw.storm == "" {
+		nw.storm = fmt.Sprintf("at t=%v router %s has been asked for its advertisement %d times since the last settling point (every new sequence number makes each neighbour fetch once): the routers keep announcing changes, no fixed point is being approached", nw.since(), n.nameStr, nw.advServed[n.id])
+	}
 	for _, e := range adv.Entries {
 		if e.Cost >= infinity && nw.advertViolation == "" {
 			dst := "?"
@@ -681,6 +690,9 @@ func (nw *network) observeData(n *node, p *pending, raw []byte) {
 	if string(nw.lastAdvert[n.id]) != canon {
 		nw.lastAdvert[n.id] = []byte(canon)
 		nw.advChanges[n.id]++
+		if nw.advChanges[n.id] > stormLimit && nw.storm == "" {
+			nw.storm = fmt.Sprintf("at t=%v the advertisement of router %s has changed %d times since the last settling point: no fixed point is being approached (counting to infinity takes at most 16 changes per lost destination)", nw.since(), n.nameStr, nw.advChanges[n.id])
+		}
 		nw.lastChange = nw.since()
 	}
 }
@@ -780,6 +792,10 @@ func (nw *network) runFor(d time.Duration) {
 		now := time.Now()
 		var due []*item
 		nw.mu.Lock()
+		if nw.storm != "" {
+			nw.mu.Unlock()
+			return
+		}
 		for nw.queue.Len() > 0 && !nw.queue[0].at.After(now) {
 			due = append(due, heap.Pop(&nw.queue).(*item))
 		}
